@@ -74,6 +74,8 @@ pub enum UReq {
     Ack,
     /// the user asks for a DISCONNECT packet
     Disconnect,
+    /// manual acknowledgement of the second oldest inbound publish (before the oldest)
+    AckSecond,
 }
 
 #[derive(Clone, Debug, PartialEq, Eq, Hash, PartialOrd, Ord, Serialize, Deserialize)]
@@ -429,7 +431,7 @@ impl<P: Proto> ClientWorld<P> {
                 } else {
                     0
                 };
-                let inbound = self.mon.oldest_unacked_inbound();
+                let inbound = if matches!(req, UReq::AckSecond) { self.mon.second_unacked_inbound() } else { self.mon.oldest_unacked_inbound() };
                 if P::request(&self.client, req, tag, inbound.as_ref()) {
                     self.mon.on_user(req, tag);
                 }
